@@ -289,6 +289,19 @@ pub fn match_replies_prefix(expected: &[Exp], got: &[Reply]) -> Result<usize, St
     }
 }
 
+/// The replies `got` must be, in order and with nothing else, a prefix of `expected` that covers
+/// at least every reply caused by one of the first `consumed_records` client records (records
+/// the parser has demonstrably taken in); replies for later records may or may not be there yet.
+pub fn match_replies_upto(expected: &[Exp], got: &[Reply], consumed_records: usize) -> Result<(), String> {
+    let covered = match_replies_prefix(expected, got)?;
+    let must = expected.iter().take_while(|e| e.cause < consumed_records).count();
+    if covered >= must || mandatory(&expected[..covered]) >= mandatory(&expected[..must]) {
+        Ok(())
+    } else {
+        Err(format!("only {covered} of the {must} replies owed for the {consumed_records} records the parser consumed were produced"))
+    }
+}
+
 /// Number of expected replies that must (not may) appear.
 pub fn mandatory(expected: &[Exp]) -> usize {
     expected.iter().filter(|e| !matches!(e.kind, ExpKind::OptionalEmptyValues)).count()
